@@ -13,8 +13,8 @@ import random
 
 from common import Driver, Violation, make_request
 
-KINDS = ["sleep", "take", "give", "select", "selectg", "read", "chunk", "write", "proc", "thread"]
-TIMEOUT_OK = {"read", "chunk", "write"}
+KINDS = ["sleep", "take", "give", "select", "selectg", "read", "chunk", "write", "proc", "thread", "gather", "accept"]
+TIMEOUT_OK = {"read", "chunk", "write", "accept"}
 
 
 class C07(Driver):
@@ -49,7 +49,7 @@ class C07(Driver):
             ends = ["complete", "complete", "cancel", "deadline"]
             if kind in TIMEOUT_OK:
                 ends += ["timeout", "timeout"]
-            if kind in ("select", "selectg"):
+            if kind in ("select", "selectg", "gather"):
                 ends += ["other", "other"]
             end = "complete" if last else r.choice(ends)
             delta = r.choice([1, 1, 2, 3, 5])
@@ -58,6 +58,10 @@ class C07(Driver):
                 st["ms"] = dur if end == "complete" else dur + delta
             if end == "deadline":
                 st["deadline"] = dur
+            elif end == "complete" and not last and r.random() < 0.3:
+                # a deadline that outlives its body: it expires while the victim is in a later wait
+                st["deadline"] = dur + r.choice([1, 2, 3, 6, 12, 25])
+                st["late"] = 1
             if end == "timeout":
                 st["timeout"] = dur
             if kind in ("read", "chunk"):
@@ -100,6 +104,12 @@ class C07(Driver):
                     adv.append({"t": fire, "a": "write", "p": i, "n": n if kind == "chunk" else r.choice([1, n, n + 3])})
             elif kind == "write":
                 adv.append({"t": fire, "a": "drain", "p": i})
+            elif kind == "gather":
+                # branch 0 takes from channel 0; branch 1 sleeps and then returns or (end = other) fails
+                st["sib_ms"] = dur if end == "other" else r.randint(1, dur)
+                adv.append({"t": fire, "a": "give", "ch": [i, 0], "v": i * 1000 + 1})
+            elif kind == "accept":
+                adv.append({"t": fire, "a": "connect", "p": i})
             steps.append(st)
             t += dur
         p = {}
@@ -109,7 +119,12 @@ class C07(Driver):
                     p[k] = r.choice([0.05, 0.2])
         knobs = {"seed": seed, "p": p, "pipe_size": 4096, "clock_phase_ns": r.choice([0, 0, 250000, 999999]),
                  "max_yields": 400000}
-        return {"property": "C07", "knobs": knobs, "steps": steps, "adv": adv, "nest": 1 if r.random() < 0.35 else 0}
+        plan = {"property": "C07", "knobs": knobs, "steps": steps, "adv": adv, "nest": 1 if r.random() < 0.35 else 0}
+        if r.random() < 0.6:
+            # bystander tasks: a sleeper spanning the whole plan, a taker served at the end, and a task whose own
+            # deadline does expire - none of them may be touched by what happens to the victim, and vice versa
+            plan["by"] = {"sleep": t + r.choice([0, 3, 7]), "take_at": t + r.choice([1, 4]), "dl": r.randint(3, max(4, t))}
+        return plan
 
     # ---------------- rendering ----------------
     def render(self, plan):
@@ -122,8 +137,10 @@ class C07(Driver):
         A("(defn setup []")
         for st in steps:
             i = st["i"]
-            if st["kind"] in ("take", "give", "select", "selectg"):
+            if st["kind"] in ("take", "give", "select", "selectg", "gather"):
                 A("  (put CH [%d 0] (ev/chan 0)) (put CH [%d 1] (ev/chan 0))" % (i, i))
+            if st["kind"] == "accept":
+                A("  (put P [%d :name] (string \"@jsim-c07-\" (os/getpid) \"-%d\")) (put P [%d :srv] (net/listen :unix (P [%d :name])))" % (i, i, i, i))
             if st["kind"] in ("read", "chunk", "write"):
                 A("  (let [[r w] (os/pipe)] (put P [%d :r] r) (put P [%d :w] w))" % (i, i))
             if st["kind"] == "write":
@@ -153,6 +170,12 @@ class C07(Driver):
                 return "(do (ev/write (P [%d :w]) (sim/fill %d 4096 100)%s) :wrote)" % (i, 50 + i, to2)
             if k == "proc":
                 return "(let [p (os/spawn [\"sim-child\" \"s%d\" \"x%d\"] :p)] (put PROC %d p) [:exit (os/proc-wait p)])" % (st["child_ms"], st["code"], i)
+            if k == "gather":
+                b1 = "(error \"sib-%d\")" % i if st["end"] == "other" else ":b"
+                return "(ev/gather (ev/take (CH [%d 0])) (do (ev/sleep %s) %s))" % (i, st["sib_ms"] / 1000.0, b1)
+            if k == "accept":
+                to3 = " %s" % (st["timeout"] / 1000.0) if "timeout" in st else ""
+                return "(let [c (net/accept (P [%d :srv])%s)] (:close c) :accepted)" % (i, to3)
             if k == "thread":
                 return "(do (ev/thread (fn [&] (ev/sleep %s) (sim/ev :tdone %d))) :thread-returned)" % (st["thread_ms"] / 1000.0, i)
             raise ValueError(k)
@@ -195,8 +218,20 @@ class C07(Driver):
             elif k == "drain":
                 A("  (sim/ev :ainv %d) (let [[ok v] (protect (ev/read (P [%d :r]) 4096))] (sim/ev :aret %d :drain ok (if (bytes? v) (length v) v)))"
                   % (j, a["p"], j))
+            elif k == "connect":
+                A("  (sim/ev :ainv %d) (let [[ok v] (protect (:close (net/connect :unix (P [%d :name]))))] (sim/ev :aret %d :connect ok nil))"
+                  % (j, a["p"], j))
             A("  nil)")
-        A("(ev/go (fn [] (setup) (set victim (ev/go vmain)) %s))" % " ".join("(ev/go adv%d)" % j for j in range(len(plan["adv"]))))
+        by = plan.get("by")
+        extra = ""
+        if by:
+            A("(def BCH (ev/chan 0)) (def BCH2 (ev/chan 0))")
+            A("(defn by0 [] (sim/ev :binv 0) (let [[ok v] (protect (ev/sleep %s))] (sim/ev :bret 0 ok v)))" % (by["sleep"] / 1000.0))
+            A("(defn by1 [] (sim/ev :binv 1) (let [[ok v] (protect (ev/take BCH))] (sim/ev :bret 1 ok v)))")
+            A("(defn by2 [] (sim/ev :binv 2) (let [[ok v] (protect (ev/with-deadline %s (ev/take BCH2)))] (sim/ev :bret 2 ok v)))" % (by["dl"] / 1000.0))
+            A("(defn by3 [] (ev/sleep %s) (sim/ev :binv 3) (let [[ok v] (protect (ev/give BCH 424242))] (sim/ev :bret 3 ok (if v :ok :nil))))" % (by["take_at"] / 1000.0))
+            extra = " (ev/go by0) (ev/go by1) (ev/go by2) (ev/go by3)"
+        A("(ev/go (fn [] (setup)%s (set victim (ev/go vmain)) %s))" % (extra, " ".join("(ev/go adv%d)" % j for j in range(len(plan["adv"])))))
         return make_request(plan["knobs"], "\n".join(L))
 
     # ---------------- oracle ----------------
@@ -378,6 +413,25 @@ class C07(Driver):
                     why = "proc-wait returned %r, child exited=%r expected code %d" % (code, bool(ex), st["code"])
                 else:
                     ok, why = False, "proc-wait resumed with an unrelated value"
+            elif kind == "gather":
+                if payload.startswith("true #0=@["):
+                    toks = payload[len("true #0=@["):].rstrip("]").split(" ")
+                    ok = (len(toks) == 2 and toks[1] == ":b" and toks[0].isdigit() and st["end"] != "other"
+                          and dt >= (st["sib_ms"] - 1) * 1000000
+                          and any(a["a"] == "give" and a["ch"] == [i, 0] and a["v"] == int(toks[0]) and j in ainv and ainv[j].seq < e1.seq
+                                  for j, a in enumerate(adv)))
+                    why = "ev/gather returned results its branches cannot have produced (yet)"
+                elif payload == 'false "sib-%d"' % i:
+                    ok = st["end"] == "other" and dt >= (st["sib_ms"] - 1) * 1000000
+                    why = "ev/gather reported a sibling failure that has not happened"
+                else:
+                    ok, why = False, "ev/gather resumed with an unrelated value"
+            elif kind == "accept":
+                if payload == "true :accepted":
+                    ok = any(a["a"] == "connect" and a["p"] == i and j in ainv and ainv[j].seq < e1.seq for j, a in enumerate(adv))
+                    why = "net/accept returned a connection although nobody connected to this listener"
+                else:
+                    ok, why = False, "net/accept resumed with an unrelated value"
             elif kind == "thread":
                 if payload == "true :thread-returned":
                     ok = i in tdone and tdone[i].seq < e1.seq
@@ -409,7 +463,9 @@ class C07(Driver):
                 continue
             gone = ret[si][0].seq if si in ret else None
             for c in cancels:
-                if c.seq > inv[si].seq and (gone is None or c.seq < gone):
+                # (ev/gather's taker is a child task that is cancelled by the victim's cleanup, one loop turn after
+                # the victim itself: it is still there until the gather has returned)
+                if c.seq > inv[si].seq and (gone is None or c.seq < gone) and st["kind"] != "gather":
                     gone = c.seq
             if gone is None or j not in ainv or ainv[j].seq < gone:
                 continue
@@ -439,8 +495,47 @@ class C07(Driver):
                     fired = any(c[2] == procs.index(i) for c in child_exit)
                 elif st["kind"] == "thread":
                     fired = i in tdone
+                elif st["kind"] == "accept":
+                    fired = any(a["a"] == "connect" and a["p"] == i and j in aret and aret[j][1][1] == "true" for j, a in enumerate(adv))
+                elif st["kind"] == "gather":
+                    fired = st["end"] == "other" or any(a["a"] == "give" and a["ch"] == [i, 0] and j in ainv for j, a in enumerate(adv))
                 if fired:
                     V("C07/lost-resume/wait=%s" % st["kind"], "step %d never returned although its trigger fired" % i)
+        # ---- bystander tasks are untouched by whatever happened to the victim ----
+        by = plan.get("by")
+        if by:
+            binv, bret = {}, {}
+            for e in res.events:
+                if e.kind == "binv":
+                    binv[int(e.payload)] = e
+                elif e.kind == "bret":
+                    k, rest = e.payload.split(" ", 1)
+                    bret[int(k)] = (e, rest)
+            if 0 in bret:
+                e, rest = bret[0]
+                d0 = e.t - binv[0].t
+                if rest != "true nil":
+                    V("C07/bystander/sleeper-resumed-with/%s" % self.classify(rest), "bystander ev/sleep returned %s" % rest[:80])
+                elif d0 < by["sleep"] * 1000000 and not stale_thread(10 ** 9, binv[0], e):
+                    V("C07/sleep/returned-early/%s" % ("lt-1ms" if by["sleep"] * 1000000 - d0 < 1000000 else "ge-1ms"),
+                      "bystander ev/sleep %d ms returned after %d ns" % (by["sleep"], d0))
+            elif res.outcome == "ok" or 0 in binv and res.events and res.events[-1].t - binv[0].t > (by["sleep"] + 2) * 1000000:
+                V("C07/bystander/sleeper-never-returned", "bystander ev/sleep %d ms never returned" % by["sleep"])
+            if 1 in bret:
+                e, rest = bret[1]
+                if not (rest == "true 424242" and 3 in binv and binv[3].seq < e.seq):
+                    V("C07/bystander/taker-resumed-with/%s" % self.classify(rest), "bystander take returned %s" % rest[:80])
+            elif 3 in binv:
+                V("C07/bystander/taker-never-resumed", "bystander take was never served although its giver ran")
+            if 2 in bret:
+                e, rest = bret[2]
+                d2 = e.t - binv[2].t
+                if not (rest.startswith('false "deadline expired"') and d2 >= (by["dl"] - 1) * 1000000):
+                    V("C07/bystander/own-deadline/%s" % self.classify(rest), "bystander with its own %d ms deadline returned %s after %d ns" % (by["dl"], rest[:60], d2))
+            elif 2 in binv and res.events and res.events[-1].t - binv[2].t > (by["dl"] + 2) * 1000000:
+                V("C07/bystander/own-deadline-never-fired", "bystander's %d ms deadline never cancelled its take" % by["dl"])
+            if 3 in bret and bret[3][1] != "true :ok":
+                V("C07/bystander/giver-resumed-with/%s" % self.classify(bret[3][1]), "bystander give returned %s" % bret[3][1][:80])
         seen, out = set(), []
         for v in vs:
             if v.sig not in seen:
@@ -514,6 +609,15 @@ class C07(Driver):
             q = cp()
             q["nest"] = 0
             yield q
+        if plan.get("by"):
+            q = cp()
+            del q["by"]
+            yield q
+        for k, st in enumerate(plan["steps"]):
+            if st.get("late"):
+                q = cp()
+                del q["steps"][k]["late"], q["steps"][k]["deadline"]
+                yield q
 
 
 DRIVER = C07
